@@ -12,6 +12,7 @@ import (
 	"strings"
 	"time"
 
+	"github.com/postalsys/muti-metroo/internal/agent"
 	"github.com/postalsys/muti-metroo/internal/config"
 	"github.com/postalsys/muti-metroo/internal/sleep"
 	"github.com/postalsys/muti-metroo/internal/verifhook"
@@ -151,8 +152,106 @@ func c30Err(err error) string {
 	return "err-other"
 }
 
+// Agent level: the real Agent.doPoll (OnPoll callback of the real agent), parked at the verif
+// scheduling point "agent.doPoll.before-disconnect" between its state check and DisconnectAll().
+//
+//	reset-agent | asleep | awake | dpstart | dprelease   -> <res> st=<STATE>
+type c30AgentWorld struct {
+	a       *agent.Agent
+	dir     string
+	parked  bool
+	arrived chan struct{}
+	gate    chan struct{}
+	done    chan struct{}
+}
+
+var c30A *c30AgentWorld
+
+func c30AgentReset() string {
+	if old := c30A; old != nil {
+		if old.parked {
+			close(old.gate)
+			<-old.done
+		}
+		old.a.VerifC30Close()
+		os.RemoveAll(old.dir)
+	}
+	dir, err := os.MkdirTemp("", "verif-c30a-")
+	must(err)
+	cfg := config.Default()
+	cfg.Agent.DataDir = dir
+	cfg.Agent.LogLevel = "error"
+	cfg.Sleep.Enabled = true
+	cfg.Sleep.PollInterval = time.Hour
+	cfg.Sleep.PollIntervalJitter = 0
+	cfg.Sleep.PollDuration = 20 * time.Millisecond
+	w := &c30AgentWorld{dir: dir}
+	a, err := agent.VerifC30New(cfg, func() error { return nil }, func() error { return nil })
+	must(err)
+	w.a = a
+	verifhook.Point = func(name string) {
+		if name == "agent.doPoll.before-disconnect" {
+			w.arrived <- struct{}{}
+			<-w.gate
+		}
+	}
+	c30A = w
+	return "ok"
+}
+
+func c30AgentRun(f []string) string {
+	w := c30A
+	st := func(res string) string { return fmt.Sprintf("%s st=%s", res, w.a.VerifC30SleepMgr().GetState()) }
+	switch f[0] {
+	case "asleep":
+		if err := w.a.VerifC30SleepMgr().Sleep(); err != nil {
+			return st("refused")
+		}
+		return st("ok")
+	case "awake":
+		if err := w.a.VerifC30SleepMgr().Wake(); err != nil {
+			return st("refused")
+		}
+		return st("ok")
+	case "dpstart":
+		if w.parked {
+			return st("disabled")
+		}
+		w.arrived, w.gate, w.done = make(chan struct{}), make(chan struct{}), make(chan struct{})
+		go func(done chan struct{}) {
+			defer close(done)
+			_ = w.a.VerifC30DoPoll()
+		}(w.done)
+		select {
+		case <-w.arrived:
+			w.parked = true
+			return st("parked")
+		case <-w.done:
+			return st("returned")
+		case <-time.After(10 * time.Second):
+			return st("stuck")
+		}
+	case "dprelease":
+		if !w.parked {
+			return st("disabled")
+		}
+		out := st("disconnected") // state at the moment DisconnectAll() is about to run
+		w.gate <- struct{}{}
+		<-w.done
+		w.parked = false
+		return out
+	}
+	return "bad-op"
+}
+
 func c30Run(line string) string {
 	f := fields(line)
+	switch f[0] {
+	case "reset-agent":
+		return c30AgentReset()
+	case "asleep", "awake", "dpstart", "dprelease":
+		return c30AgentRun(f)
+	}
 	if f[0] == "reset" {
 		n, _ := strconv.Atoi(f[1])
 		return c30Reset(n)
@@ -240,7 +339,7 @@ func c30Run(line string) string {
 // of the control state (only used to know which labels are enabled); (b) long random schedules with
 // three threads, including disabled labels and refused calls.
 func c30Gen(w *bufio.Writer, seed int64, tier string) {
-	depth, nrand := 10, 300
+	depth, nrand := 9, 300
 	if tier == "thorough" {
 		depth, nrand = 12, 5000
 	}
@@ -308,6 +407,35 @@ func c30Gen(w *bufio.Writer, seed int64, tier string) {
 	}
 	dfs(cs{}, depth)
 	r := newRng(seed)
+	// agent level (real doPoll, 20 ms poll duration each): all schedules over {asleep, awake, dpstart, dprelease} of length 4
+	// that contain a dpstart, plus a few random longer ones
+	alpha := []string{"asleep", "awake", "dpstart", "dprelease"}
+	for code := 0; code < 256; code++ {
+		ops := []string{alpha[code&3], alpha[(code>>2)&3], alpha[(code>>4)&3], alpha[(code>>6)&3]}
+		nstart := 0
+		for _, o := range ops {
+			if o == "dpstart" {
+				nstart++
+			}
+		}
+		if nstart != 1 || ops[0] != "asleep" {
+			continue
+		}
+		fmt.Fprintln(w, "reset-agent")
+		for _, o := range ops {
+			fmt.Fprintln(w, o)
+		}
+	}
+	na := 6
+	if tier == "thorough" {
+		na = 60
+	}
+	for c := 0; c < na; c++ {
+		fmt.Fprintln(w, "reset-agent")
+		for s := 0; s < 6+r.intn(8); s++ {
+			fmt.Fprintln(w, alpha[r.intn(4)])
+		}
+	}
 	for c := 0; c < nrand; c++ {
 		nt := 1 + r.intn(3)
 		fmt.Fprintf(w, "reset %d\n", nt)
